@@ -317,6 +317,11 @@ func runC01(ctx *Ctx) {
 	}
 	in, res := doIngest(t, rs, w, comma, false)
 	ctx.Emit("ingest", in, res, ingestNontrivial(in, res), tags...)
+	if ctx.Idx%12 == 2 || ctx.Idx%12 == 8 {
+		// in addition (draws after those of the case above): the same table with a spill file cut short
+		// before the merge reads it (c01torn.go)
+		c01TornCase(ctx, ctx.R, t, rs, w, comma, tags)
+	}
 }
 
 func corpusC01(ctx *Ctx, op string, raw json.RawMessage) {
@@ -330,6 +335,21 @@ func corpusC01(ctx *Ctx, op string, raw json.RawMessage) {
 	}
 	if op == "export-history" {
 		corpusHistory(ctx, op, raw)
+		return
+	}
+	if op == "ingest-torn-spill" {
+		var in c01TornInput
+		if err := json.Unmarshal(raw, &in); err != nil {
+			panic(err)
+		}
+		if in.Spec != nil {
+			var comma rune
+			if in.Comma != "" {
+				comma = []rune(in.Comma)[0]
+			}
+			in2, res := c01TornRun(in.Spec, in.RunSize, in.Workers, comma, in.TornChunk, in.TornPos)
+			c01TornEmit(ctx, in2, res, "corpus")
+		}
 		return
 	}
 	var in ingestInput
@@ -447,10 +467,19 @@ func runC02(ctx *Ctx) {
 		}
 	}
 	c02Case(ctx, t)
+	if ctx.Idx%6 == 2 {
+		// in addition (draws after those of the case above): an ingest whose spill files cannot be
+		// written to the end (c02fault.go)
+		c02FaultCase(ctx, genC02Fault(ctx.R))
+	}
 }
+
+// c02SmallWorkers: 1..5, one after the other over the case indices
+func c02SmallWorkers(ctx *Ctx) int { return 1 + ctx.Idx%5 }
 
 func c02Case(ctx *Ctx, t *TableSpec, tags ...string) {
 	r := ctx.R
+	tags = append(tags, fmt.Sprintf("workers=%d", c02SmallWorkers(ctx)))
 	in := &c02Input{Spec: t}
 	res := Guard(func() Res {
 		out := &c02Result{}
@@ -473,6 +502,9 @@ func c02Case(ctx *Ctx, t *TableSpec, tags ...string) {
 			{"workers", true, 1 << 40, 8, 0},
 			{"all-spill+workers", true, 1, 5, 0},
 			{"delimiter", false, uint64(total/2 + 1), 3, '|'},
+			// every small worker count in turn, by the case index (the inserter keeps two threads for the
+			// sorter and itself, so 1, 2, 3 are its boundary values); rows as given, two spills
+			{fmt.Sprintf("workers=%d", c02SmallWorkers(ctx)), false, uint64(total/3 + 1), c02SmallWorkers(ctx), 0},
 		}
 		var baseDB *MemStore
 		var baseSum []byte
@@ -637,6 +669,16 @@ func c02Case(ctx *Ctx, t *TableSpec, tags ...string) {
 func corpusC02(ctx *Ctx, op string, raw json.RawMessage) {
 	if op == "cli-ids" {
 		corpusHistory(ctx, op, raw)
+		return
+	}
+	if op == "ids-spill-write-fault" {
+		var in c02FaultInput
+		if err := json.Unmarshal(raw, &in); err != nil {
+			panic(err)
+		}
+		if in.Spec != nil {
+			c02FaultCase(ctx, &in, "corpus")
+		}
 		return
 	}
 	var in c02Input
